@@ -21,7 +21,7 @@ func c12Scenarios(thorough bool) []*explore.Scenario {
 	L := []explore.Op{op(explore.Put, "a"), op(explore.Put, "b"), op(explore.Delete, "a"), op(explore.Put, "c")}
 	bk := explore.ThreadProg{op(explore.Backup, "")}
 	type bc struct{ b, c string }
-	bcs := []bc{{"E", "ROLL1"}, {"E", "ROLL"}, {"S2", "ROLL"}, {"E", "BIGC"}}
+	bcs := []bc{{"E", "ROLL1"}, {"E", "ROLL"}, {"S2", "ROLL"}, {"S2", "ROLL1"}, {"E", "BIGC"}}
 	for _, x := range bcs {
 		for i, w := range L {
 			scs = append(scs, &explore.Scenario{Name: fmt.Sprintf("B1-%s-%s-%d", x.b, x.c, i), Base: x.b, Cfg: x.c, Threads: []explore.ThreadProg{bk, {w}}, Bound: -1, FSYield: true, YieldSeg: true, Record: true})
@@ -38,7 +38,7 @@ func c12Scenarios(thorough bool) []*explore.Scenario {
 		}
 	}
 	// a write acknowledged before the call, one during, one after (program order pins the first and the last)
-	for _, x := range bcs[:3] {
+	for _, x := range bcs[:4] {
 		for i, w := range L[:3] {
 			scs = append(scs, &explore.Scenario{Name: fmt.Sprintf("B3-%s-%s-%d", x.b, x.c, i), Base: x.b, Cfg: x.c,
 				Threads: []explore.ThreadProg{{op(explore.Put, "b"), op(explore.Backup, ""), op(explore.Put, "a")}, {w, op(explore.Put, "b")}}, Bound: -1, FSYield: true, YieldSeg: true, Record: true})
